@@ -19,6 +19,23 @@ NA = {
 }
 
 CHECKS = {
+ "C03": dict(
+   engine="E1 lifecycle + kernel interleaving",
+   technique="deterministic simulation: seeded operation histories on real samplers with recording RNG proxies, tail-draw / edge-uniform / exchange faults; groups built from shared input arrays interleaved at every posterior call by the seeded scheduler and compared with solo re-runs",
+   text=("After every operation of every generated history the stored log-probability of each new row is recomputed from the "
+         "pure target (probs[k] == posterior(sample[k])/T), mode() must be a stored row with maximal stored value, every input "
+         "array must be byte-identical to its snapshot, and each sampler of an interleaved group must reproduce its solo "
+         "trajectory. Exploration by seeded search with shrinking and replay; evidence, not proof."),
+   design_ref="DESIGN.md 3.2",
+   note="Trusted: harness targets are pure functions; interleaving is at posterior-call granularity (the samplers are synchronous objects, there is no finer pre-emption point that touches shared state)."),
+ "C14": dict(
+   engine="E1 lifecycle",
+   technique="deterministic simulation: model-based checking of read-outs against a vector-of-rows reference after every operation of seeded histories that include exchanges and crash-restarts (save -> drop -> load)",
+   text=("Reference model = rows read at burn=0/thin=1. After each op seeded (burn, thin, fraction, count) queries are compared "
+         "with numpy slicing of the model: contents, shapes (incl. 0 and 1 retained rows), row alignment, marginal sample "
+         "multiset, and for get_interval membership of (row, log-prob) pairs in the top fraction, count and 2-D shape."),
+   design_ref="DESIGN.md 3.6",
+   note="Trusted: the size of the 'top fraction' is n - int(n(1-f)) with one row of slack; with a sample count either the caller's thin or max(n_burned//count,1) is accepted."),
  "C08": dict(
    engine="E2 process simulation",
    technique="deterministic simulation: real ParallelTempering + tempering_process on simulated Process/Pipe/Event under a seeded discrete-event scheduler with latency, stall, speed and pipe-capacity faults; Hypothesis-generated op sequences with shrinking",
